@@ -37,10 +37,16 @@ Clauses(o, ev, o2) ==
                           /\ App(o, a).done = "return" /\ App(o, a).final /\ App(o, a).sendExc = 0
                           /\ ~Req(o, a).rst
                 Harmed(a) == Sib(a) /\ o.final /\ Wire(o, a).ends = 0
+                \* ... or was never taken up at all: its head reached a connection that nothing had ended, yet no
+                \* application instance was started for it
+                Ignored(a) == /\ IsH2(o) /\ o.unusual # {} /\ ~o.illegal /\ o.final /\ Req(o, a).known /\ Req(o, a).kind = "http"
+                              /\ Req(o, a).head /\ ~Req(o, a).bad /\ ~Req(o, a).rst /\ App(o, a).started = 0
+                              /\ Wire(o, a).heads = 0 /\ Wire(o, a).rst = 0
+                              /\ o.goaway = 0 /\ ~o.shut /\ ~o.reset /\ ~o.tfail /\ ~o.cerr
             IN (IF \E a \in DOMAIN o.reqs : No4xx(a) THEN <<F("h1-4xx-close", "")>> ELSE <<>>)
             \o (IF IsH2(o) /\ o.illegal /\ ~o.gone /\ ~o.reset /\ ~o.tfail /\ o.goaway = 0 /\ o.closedAt < 0
                 THEN <<F("h2-goaway-close", "")>> ELSE <<>>)
-            \o (IF \E a \in DOMAIN o.reqs : Harmed(a)
+            \o (IF \E a \in DOMAIN o.reqs : Harmed(a) \/ Ignored(a)
                 THEN <<F("h2-sibling-harmed", CHOOSE u \in o.unusual : TRUE)>> ELSE <<>>)
             \o (IF IsH2(o) /\ o.unusual # {} /\ ~o.winddown /\ \E a \in DOMAIN o.stalled : UploadStarved(o, a)
                 THEN <<F("h2-sibling-starved", CHOOSE u \in o.unusual : TRUE)>> ELSE <<>>)
